@@ -39,7 +39,7 @@ def drain (c : Cfg) (s : State) : Nat → State
 `send_impl` learnt of the event; then the event and the step by which `send_impl` learns of it.
 (`once`: `rch::oneshot`, whose `send` is `try_send` and consumes the sender.) -/
 def linkSchedule (once : Bool) (vals : List Val) (k : Nat) (ev : Ev) : List Label :=
-  let snd : Val → List Label := fun v => if once then [.sendOnce v] else [.send v, .admit]
+  let snd : Val → List Label := fun v => if once then [.sendOnce v] else [.send v, .grant]
   let pre := (vals.take k).flatMap fun v => snd v ++ [.implTake, .xmitDone]
   let rest := (vals.drop k).flatMap snd
   let evl : List Label := match ev with
@@ -79,5 +79,16 @@ def reasonName : Option Reason → String
 
 def hresName : HRes → String
   | .ok => "ok" | .sendErr => "senderr" | .dropped => "dropped"
+
+/-- the harness' name of an `mpsc::SendError` → the recorded `RemoteSendError` it was built from -/
+def rerrOfKind : String → Option RErr
+  | "closed" => some .closed
+  | "rs-closed-dropped" => some .sendClosed
+  | "rs-closed-graceful" => some .sendClosed
+  | "rs-chmux" => some .sendChMux
+  | "rs-ser" => some .itemSer
+  | "rs-oversize" => some .itemSize
+  | "rforward" => some .forward
+  | _ => none
 
 end Remoc.Close
